@@ -73,6 +73,11 @@ def run_shard(shard, ctx):
             if n % shard["slice"][1] == shard["slice"][0]:
                 run_case({"kind": "positive", "len": chunks * CH - 4096 + r - (n % 3), "pad": n % 3, "order": [0, 1, 2, 3], "aad": n % 3},
                          ctx)
+        # nonce lengths: 12 bytes is the fast path of GCM, every other length goes through GHASH; the attribute is a byte string
+        if shard["slice"][0] == 1:
+            for ivlen in (1, 7, 8, 11, 12, 13, 15, 16, 17, 20, 24, 31, 32, 33, 64, 128):
+                for ln, ai in ((0, 0), (4097, 1)):
+                    run_case({"kind": "positive", "len": ln, "pad": 5, "order": [0, 1, 2, 3], "aad": ai, "ivlen": ivlen}, ctx)
     elif kind == "extras":
         cases = []
         for t, vals in EXTRA_VALUES.items():
@@ -88,6 +93,9 @@ def run_shard(shard, ctx):
         for ln, pad in ((0, 0), (1, 4095), (4097, 1), (12289, 0)):
             run_case({"kind": "cli", "len": ln, "pad": pad, "how": "inprocess"}, ctx)
         run_case({"kind": "cli", "len": 5000, "pad": 7, "how": "subprocess"}, ctx)
+        # payloads of exactly 1 and 2 x 4 MiB (the size in which the tool may move data) and one byte either side
+        for ln in ((4 << 20) - 1, 4 << 20, (4 << 20) + 1, 8 << 20):
+            run_case({"kind": "cli", "len": ln, "pad": 0, "how": "inprocess"}, ctx)
         # the output path already exists (longer, shorter, same length as the payload): afterwards it holds exactly the payload
         for ln, pre in ((39, 9000), (4097, 12), (0, 700), (100, 100), (12289, 12290)):
             run_case({"kind": "cli", "len": ln, "pad": 3, "how": "inprocess", "existing": pre}, ctx)
@@ -132,8 +140,8 @@ def run_shard(shard, ctx):
 KS_CHARS = ["\x0b", "\x0c", "\x1c", "\x1d", "\x1e", "\x85", "\u2028", "\u2029", "\r", "\t", "\xa0"]
 
 
-def _attrs(order, extras=(), where=0):
-    std = B.standard_attrs(KEY, IV)
+def _attrs(order, extras=(), where=0, iv=None):
+    std = B.standard_attrs(KEY, iv or IV)
     attrs = [std[i] for i in order]
     ex = [(t, flag, name, EXTRA_VALUES[t][vi]) for t, vi, flag, name in extras]
     pos = min(where, len(attrs))
@@ -156,7 +164,8 @@ def run_case(case, ctx):
         if kind in ("positive", "extras"):
             if kind == "positive":
                 payload = B.det("payload", case["len"])
-                attrs = _attrs(case["order"])
+                iv = B.det("iv", case["ivlen"]) if case.get("ivlen") else IV
+                attrs = _attrs(case["order"], iv=iv)
                 aad = AADS[case["aad"]]
                 pad = case["pad"]
                 if case["order"] != [0, 1, 2, 3] or aad or pad:
@@ -166,7 +175,7 @@ def run_case(case, ctx):
                 attrs = _attrs([0, 1, 2, 3], case["extras"], case["where"])
                 aad, pad = None, 3
                 ctx.nontrivial += 1
-            img, _ = B.build(payload, KEY, IV, attrs, aad, pad)
+            img, _ = B.build(payload, KEY, iv if kind == "positive" else IV, attrs, aad, pad)
             ctx.transitions += 1
             ctx.states += 1
             try:
